@@ -271,24 +271,18 @@ class TsGraphEdgePropertyMixin:
         if lag > max_lag:
             self.graph["max_lag"] = lag
 
-            # get all non-lag nodes
-            non_lag_nodes = self.nodes_at(t=0)  # type: ignore
+            # every variable gets the time points of the enlarged window, also
+            # variables without any lagged neighbor
+            for variable in self.variables:  # type: ignore
+                self.add_node((variable, -lag))
 
             # if we are dealing with a stationary graph, then we need
             # to add relevant edges to maintain stationary structure
             if self.stationary:
-                # now get all neighbors that are in the past
-                edge_list = []
-                for node in non_lag_nodes:
-                    edge_list.extend([(nbr, node) for nbr in self.lagged_neighbors(node)])
-
-                # now add all homologous edges
-                self.add_edges_from(edge_list)
-            else:
-                # just add relevant nodes
-                for variable, _ in non_lag_nodes:
-                    # all relevant nodes are now added based on new max-lag
-                    self.add_node((variable, -lag))
+                # re-adding every edge (earlier node first) adds its homologous copies that
+                # fit into the enlarged window, for lagged and for contemporaneous edges
+                for edge in list(self.edges):
+                    self.add_edge(*sorted(edge, key=lambda x: x[1]))
 
         # here, we need to remove edges that are at higher lags
         elif max_lag > lag:
